@@ -364,8 +364,10 @@ func (o *OperationNormalizer) setupOperationWalkers() {
 
 	if o.options.extractVariables {
 		variablesProcessing := astvisitor.NewWalkerWithID(8, "VariablesProcessing")
-		inputCoercionForList(&variablesProcessing)
+		// the default value of a variable that was not provided is coerced like a provided value:
+		// it has to be in the variables before the coercion looks at them
 		extractVariablesDefaultValue(&variablesProcessing)
+		inputCoercionForList(&variablesProcessing)
 		injectInputFieldDefaults(&variablesProcessing)
 
 		o.operationWalkers = append(o.operationWalkers, walkerStage{
